@@ -242,6 +242,11 @@ func rulesC15(c *Ctx) {
 				})
 				c.Check(okLoop, validator+":covers-"+extraLoopField, vf, nil, "every %s entry is scheme-checked", extraLoopField)
 			}
+			wantTables := 1
+			if structName == "AuthServerMeta" {
+				wantTables = 2 // script-scheme table and https-or-loopback table
+			}
+			c.Check(len(tables) == wantTables, validator+":table-count", vf, nil, "%d validation tables found, %d expected", len(tables), wantTables)
 			if len(tables) >= 2 {
 				https := tables[1]
 				// every URL field of the struct read outside oauthex's validators must be https-checked
@@ -484,6 +489,69 @@ func rulesC15(c *Ctx) {
 		for _, call := range hr.CallsIn(hr.Body, rc, false) {
 			c.Check(hr.FieldPath(call.Args[1]) == "AuthServerMeta.RegistrationEndpoint", "handleRegistration:dcr-endpoint", hr, call, "RegisterClient is sent to asm.RegistrationEndpoint (validated https/loopback by validateAuthServerMetaURLs or derived from the validated server URL)")
 		}
+	})
+
+	c.Rule("R-C15-6", "no error of the discovery / registration / code-exchange flow is dropped: every call in the flow's functions whose callee returns an error binds it and, when it is non-nil, every path returns an error (exceptions are a closed table)", func() {
+		// "<function>:<callee>" → reason (confirmed by reading)
+		exempt := map[string]string{
+			"(*AuthorizationCodeHandler).getProtectedResourceMetadata:GetProtectedResourceMetadata": "the well-known locations are probed in turn; a location that fails (or fails validation) is skipped and the next one is tried; what is returned in the end is either a document that passed GetProtectedResourceMetadata's checks or the explicit legacy fallback",
+			"GetAuthServerMeta:getJSON": "a 4xx answer means 'no metadata at this location' and is reported as (nil, nil); R-C15-2 (ASM:no-metadata-only-for-4xx) pins exactly that; every other failure returns an error",
+		}
+		flow := map[string][]string{
+			pA: {"Authorize", "handleRegistration", "getAuthorizationCode", "exchangeAuthorizationCode", "GetAuthServerMetadata", "getProtectedResourceMetadata", "protectedResourceMetadataFromChallenges", "validateIssuerResponse"},
+			pO: {"GetProtectedResourceMetadata", "GetAuthServerMeta", "getJSON", "RegisterClient", "validateAuthServerMetaURLs", "validateClientRegistrationURLs", "getPRM"},
+		}
+		errT := types.Universe.Lookup("error").Type()
+		n, nf := 0, 0
+		for rel, names := range flow {
+			for _, f := range c.funcsWithLits(rel) {
+				root := f.Root()
+				in := false
+				for _, nm := range names {
+					if root.Obj != nil && root.Obj.Name() == nm {
+						in = true
+					}
+				}
+				if !in || f.Lit != nil {
+					continue
+				}
+				nf++
+				c.touch(f)
+				for _, call := range f.AllCalls(f.Body, false) {
+					fn := f.Callee(call)
+					if fn == nil {
+						continue
+					}
+					sig, ok := fn.Type().(*types.Signature)
+					if !ok || sig.Results().Len() == 0 || !types.Identical(sig.Results().At(sig.Results().Len()-1).Type(), errT) {
+						continue
+					}
+					switch f.ParentOf(call).(type) {
+					case *ast.DeferStmt, *ast.GoStmt:
+						continue
+					}
+					key := root.Name() + ":" + fn.Name()
+					if why, ok := exempt[key]; ok {
+						c.Ok("error-handled:"+key, f, call, "exempt: %s", why)
+						continue
+					}
+					n++
+					// returned directly?
+					if r, isRet := f.ParentOf(call).(*ast.ReturnStmt); isRet && len(r.Results) == 1 {
+						c.Ok("error-handled:"+key+"#"+itoa(n), f, call, "the call's results are returned as they are")
+						continue
+					}
+					// error constructors are values, not steps
+					if fn.Pkg() != nil && (fn.Pkg().Path() == "fmt" || fn.Pkg().Path() == "errors") {
+						n--
+						continue
+					}
+					c.Check(f.failureReturnsError(call), "error-handled:"+key+"#"+itoa(n), f, call, "a failure of %s is bound to a variable, tested, and every path behind the failure returns an error (a dropped error lets the flow continue with unvalidated or missing metadata)", fn.Name())
+				}
+			}
+		}
+		c.Pin("flow functions examined", nf, 8)
+		c.Pin("fallible calls in the flow", n, 25)
 	})
 }
 
